@@ -46,6 +46,7 @@ let rec parse_op (s : string) : yop =
   match String.split_on_char '.' s with
   | ["F"; n; c] -> YFrame (n_of_string n, ni c)
   | ["H"] -> YHousekeeping
+  | ["Q"; p; v] -> YPortSetPrio (ni p, ni v)
   | _ -> YX (parse_xop s)
 and parse_xop (s : string) : xop =
   match String.split_on_char '.' s with
@@ -140,7 +141,8 @@ let handle (payload : string) : string =
       if not !dead then begin
         let s = !x.x_s in
         (* classify what this op exercises *)
-        (match (match o with YX xo -> xo | YFrame (n, cl) -> XBase (SrcAdd (n, cl)) | YHousekeeping -> XBase GC) with
+        (match (match o with YX xo -> xo | YFrame (n, cl) -> XBase (SrcAdd (n, cl)) | YHousekeeping -> XBase GC
+                       | YPortSetPrio (p, _) -> XBase (PrioInherit p)) with
          | XBase (Patch (p, n)) ->
            (match port_of c s p with
             | None -> tag "nullport"
